@@ -87,7 +87,7 @@ theorem countLoop_spec (R shift code0 radix0 : Nat) (s : σ) (seg : List (α × 
       by_cases hq : q = getRadix R (seg[i]'hi).2 shift
       · subst hq; simp [rad]
       · have : ¬ (rad R shift (seg[i]'hi) == q) = true := by simp [rad]; exact fun h => hq h.symm
-        simp [hq, List.countP_cons, this]
+        simp [hq, this]
     · rw [htake]
       simp only [Bool.and_eq_true, beq_iff_eq, hsc, List.mem_append, List.mem_singleton]
       constructor
